@@ -31,6 +31,7 @@ from ..runner import (guard, timed_out, h, new_result, mkviolation,
 PROPERTY = "C14"
 CHUNK = 200
 MAX_PER_CLAUSE = 25
+_VL = [1]        # validation level of the Gfa under test (family "levels")
 
 
 def flat(text):
@@ -40,7 +41,8 @@ def flat(text):
 def standalone_for(text, ver):
   return "\n".join([
       "import gfapy",
-      "g = gfapy.Gfa({!r}, version={!r})".format(text, ver),
+      "g = gfapy.Gfa({!r}, version={!r}, vlevel={})".format(text, ver,
+                                                            _VL[0]),
       "print([[str(e) for e in p] for p in g.linear_paths()])",
       "try:",
       "  g.merge_linear_paths()",
@@ -65,7 +67,7 @@ def judge(text, ver, counts):
   doc = R.parse(text, ver)
   ref = R.chains(doc)
   info["nchains"] = len(ref)
-  g = gfapy.Gfa(text, version=ver)
+  g = gfapy.Gfa(text, version=ver, vlevel=_VL[0])
   text0 = str(g)
   if sorted(text0.strip("\n").split("\n")) != \
       sorted(text.strip("\n").split("\n")):
@@ -187,6 +189,8 @@ def judge(text, ver, counts):
 
 def key_of(label, text, ver, doc_class, extra):
   k = {"class": doc_class, "version": ver, "graph": flat(text)}
+  if _VL[0] != 1:
+    k["vlevel"] = str(_VL[0])
   k.update(extra)
   return k
 
@@ -223,7 +227,8 @@ def eval_graph(label, sp, res):
       seen.add(clause)
       res["violations"].append(mkviolation(
           clause, key_of(label, text, ver, cls, extra),
-          {"text": text, "version": ver, "clause": clause},
+          {"text": text, "version": ver, "clause": clause,
+           "vlevel": _VL[0]},
           "reference prediction (gfamc.ref.graph)", detail,
           standalone_for(text, ver)))
   return probs, info
@@ -264,7 +269,9 @@ def reduce_violations(vs):
 
 def work(chunk):
   res = new_result()
-  for i, (label, sp) in enumerate(chunk):
+  for i, item in enumerate(chunk):
+    label, sp = item[0], item[1]
+    _VL[0] = item[2] if len(item) > 2 else 1
     eval_graph(label, sp, res)
     if i == 0:
       res["samples"].append({"family": label, "graph": flat(ge.text(sp))})
@@ -276,10 +283,26 @@ def work(chunk):
 
 def dedup(items):
   seen, out = set(), []
-  for label, sp in items:
-    if sp not in seen:
-      seen.add(sp)
-      out.append((label, sp))
+  for item in items:
+    if item[1:] not in seen:
+      seen.add(item[1:])
+      out.append(item)
+  return out
+
+
+def family_levels(tier):
+  """The same graphs under the other validation levels: the level decides
+  when a field is validated, never what merging does (level 3 validates a
+  field whenever it is read -- also those of the segment being assembled)."""
+  out = []
+  levels = (0, 3) if tier == "quick" else (0, 2, 3)
+  for fam in (ge.family_gfa1("quick"), ge.family_gfa2_twins("quick")):
+    for label, sp in fam:
+      if tier == "quick" and label not in ("segvar", "decor", "full",
+                                           "twin-star", "twin-full"):
+        continue
+      for v in levels:
+        out.append(("levels:" + label, sp, v))
   return out
 
 
@@ -384,7 +407,10 @@ def run(ctx):
                    "comment, one C line per ordered segment pair, one P line "
                    "per link}",
           "gfa2_twins": "the shape family written as S / E lines (zero-length "
-                        "intervals for `*`), all patterns in thorough"}}
+                        "intervals for `*`), all patterns in thorough",
+          "levels": "the quick families (quick: full, segvar, decor and "
+                    "their GFA2 twins) at validation levels 0 and 3 "
+                    "(thorough: all quick families at 0, 2, 3)"}}
   ctx.assumptions = [
       "overlaps are `*` or M-only, as the property's quantifier says",
       "gfapy's returned paths are used only as the choice of direction and "
@@ -398,7 +424,8 @@ def run(ctx):
       "witness"]
   allv, vcount = [], {}
   for name, items in (("gfa1", ge.family_gfa1(ctx.tier)),
-                      ("gfa2_twins", ge.family_gfa2_twins(ctx.tier))):
+                      ("gfa2_twins", ge.family_gfa2_twins(ctx.tier)),
+                      ("levels", family_levels(ctx.tier))):
     v, c = run_family(ctx, name, items)
     allv += v
     for k, n in c.items():
@@ -414,6 +441,7 @@ def run(ctx):
 
 def replay(w, ctx):
   text, ver = w["text"], w["version"]
+  _VL[0] = w.get("vlevel", 1)
   if w.get("clause") == "hashseed":
     return []
   res = new_result()
